@@ -197,11 +197,14 @@ def build_lib(sanitize=True):
             os.utime(d)
             return d
         shutil.rmtree(d, ignore_errors=True)
-        # prune old cache entries (keep the 3 most recent)
+        # prune cache entries not used for 3 hours (a running check touches its entry when it starts; pruning by age
+        # instead of by count avoids removing the tree under a concurrently running check), and cap the total at 40
+        now = time.time()
         ents = sorted([e for e in os.listdir(CACHE) if not e.startswith(".")],
                       key=lambda e: os.path.getmtime(os.path.join(CACHE, e)))
-        for e in ents[:-3]:
-            shutil.rmtree(os.path.join(CACHE, e), ignore_errors=True)
+        for k, e in enumerate(ents):
+            if now - os.path.getmtime(os.path.join(CACHE, e)) > 3 * 3600 or len(ents) - k > 40:
+                shutil.rmtree(os.path.join(CACHE, e), ignore_errors=True)
         t = time.time()
         copy_sources(d)
         procs = []
